@@ -29,6 +29,7 @@ type seqCase struct {
 	decl  string   // evy declaration of variable s
 	elems []string // printed form of each element (code point for strings)
 	isStr bool
+	long  bool // only the near-integer values are tried (the exhaustive part is for the short ones)
 }
 
 func c11Seqs(maxLen int) []seqCase {
@@ -50,6 +51,22 @@ func c11Seqs(maxLen int) []seqCase {
 	}
 	// pure ASCII string too
 	out = append(out, seqCase{name: "ascii3", decl: `s := "xyz"`, elems: []string{"x", "y", "z"}, isStr: true})
+	// two long sequences: the sum of a near-integer and a length >= 5 (>= 9, >= 17) rounds to an integer
+	for _, n := range []int{9, 17} {
+		if n <= maxLen {
+			continue
+		}
+		var el []string
+		for i := 0; i < n; i++ {
+			el = append(el, strconv.Itoa(10*(i+1)))
+		}
+		out = append(out, seqCase{name: fmt.Sprintf("arr%d", n), decl: "s := [" + strings.Join(el, " ") + "]", elems: el, long: true})
+		var cs []string
+		for i := 0; i < n; i++ {
+			cs = append(cs, alpha[i%len(alpha)])
+		}
+		out = append(out, seqCase{name: fmt.Sprintf("str%d", n), decl: "s := " + strconv.Quote(strings.Join(cs, "")), elems: cs, isStr: true, long: true})
+	}
 	return out
 }
 
@@ -62,6 +79,20 @@ func c11IndexValues(n int) []float64 {
 		math.Copysign(0, -1), 9007199254740992, -9007199254740992, 9223372036854775807, 9223372036854775808,
 		-9223372036854775808, -9223372036854777856, 18446744073709551616, 1e300, -1e300, 4294967296, -4294967296,
 		2147483648, 4294967296+float64(n), math.NaN(), math.Inf(1), math.Inf(-1), 4.9e-324)
+	vals = append(vals, c11NearIntegers(n)...)
+	return vals
+}
+
+// c11NearIntegers: the two neighbours (one ulp away) of every integer in [-n-1, n+1], and tiny
+// magnitudes of both signs: not integers, however the bound is computed (an index normalised by a
+// float addition first would round them to one)
+func c11NearIntegers(n int) []float64 {
+	var vals []float64
+	for i := -n - 1; i <= n+1; i++ {
+		f := float64(i)
+		vals = append(vals, math.Nextafter(f, math.Inf(1)), math.Nextafter(f, math.Inf(-1)))
+	}
+	vals = append(vals, -1e-17, 1e-17, -4.9e-324, -2.3e-308, -0.9999999999999999, -1.0000000000000002)
 	return vals
 }
 
@@ -91,6 +122,9 @@ func RunC11(d *Driver) *Report {
 	for _, c := range c11Seqs(maxLen) {
 		n := len(c.elems)
 		vals := c11IndexValues(n)
+		if c.long {
+			vals = append(c11NearIntegers(n), -1, 0, float64(n-1), float64(-n), float64(n))
+		}
 		// reads
 		for _, v := range vals {
 			src := c.decl + "\nprint s[" + NumExpr(v) + "]\n"
@@ -136,7 +170,12 @@ func RunC11(d *Driver) *Report {
 		for i := -n - 2; i <= n+2; i++ {
 			bvals = append(bvals, float64(i))
 		}
-		bvals = append(bvals, 0.5, math.NaN(), math.Inf(1), 9223372036854775808, -9223372036854775808, 1e300, math.Copysign(0, -1))
+		bvals = append(bvals, 0.5, math.NaN(), math.Inf(1), 9223372036854775808, -9223372036854775808, 1e300, math.Copysign(0, -1),
+			-1e-17, -1.0000000000000002, -0.9999999999999999, math.Nextafter(float64(n), math.Inf(-1)), math.Nextafter(-float64(n), math.Inf(1)), math.Nextafter(-float64(n), math.Inf(-1)))
+		if c.long {
+			bvals = []float64{0, 1, -1, float64(n), -float64(n), -1e-17, -1.0000000000000002, -0.9999999999999999, math.Nextafter(float64(n), math.Inf(-1)),
+				math.Nextafter(-float64(n), math.Inf(1)), math.Nextafter(-float64(n), math.Inf(-1)), math.Nextafter(2, math.Inf(1))}
+		}
 		type ob struct {
 			present bool
 			v       float64
